@@ -3,7 +3,7 @@
    Slices and indexes are checked (LFault where Go would panic), loops run on
    explicit fuel (LFuel, excluded by the theorems).  Byte predicates come from
    Facts_linkdest.  No proofs here. *)
-From Verif Require Import Bytes Facts_linkdest.
+From Verif Require Import Bytes IndexM Facts_linkdest.
 Open Scope N_scope.
 
 Inductive lres (A : Type) :=
@@ -64,13 +64,6 @@ Definition applyReplacements (src : bytes) (rs : list repl) : option bytes :=
 
 (* ---------------- markdownURLEscape ---------------- *)
 
-Definition lget (s : bytes) (i : N) : option N := nth_error s (N.to_nat i).
-
-Definition lslice (s : bytes) (a b : N) : option bytes :=
-  if (a <=? b) && (b <=? nlen s)
-  then Some (firstn (N.to_nat (b - a)) (skipn (N.to_nat a) s))
-  else None.
-
 (* strings.IndexByte *)
 Fixpoint index_byte (c : N) (s : bytes) (k : N) : option N :=
   match s with
@@ -89,13 +82,13 @@ Fixpoint ue_loop (fuel : nat) (s b : bytes) : lres (bytes * bytes) :=
       match index_byte gen_mdurl_esc_search s 0 with
       | None => LOk (b, s)                                   (* break *)
       | Some i =>
-        match lslice s 0 (i + 1) with                          (* b.WriteString(s[:i+1]) *)
+        match slice s 0 (i + 1) with                          (* b.WriteString(s[:i+1]) *)
         | None => LFault
         | Some t =>
           let b1 := b ++ t in
           let dbl :=
             if i + 1 =? nlen s then Some true                 (* i == len(s)-1 *)
-            else match lget s (i + 1) with
+            else match get s (i + 1) with
                  | None => None
                  | Some d => Some (mem gen_mdurl_esc_doubles d)
                  end in
@@ -103,7 +96,7 @@ Fixpoint ue_loop (fuel : nat) (s b : bytes) : lres (bytes * bytes) :=
           | None => LFault
           | Some d =>
             let b2 := if d then b1 ++ [gen_mdurl_esc_written] else b1 in
-            match lslice s (i + 1) (nlen s) with               (* s = s[i+1:] *)
+            match slice s (i + 1) (nlen s) with               (* s = s[i+1:] *)
             | None => LFault
             | Some s' => ue_loop fuel s' b2
             end
@@ -122,9 +115,6 @@ Definition markdownURLEscape (s : bytes) : lres bytes :=
 
 (* ---------------- markdownUnescape ---------------- *)
 
-Definition lassoc_list (l : list (N * list N)) (c : N) : list N :=
-  match assoc_get l c with Some x => x | None => [] end.
-
 (* the substitution pairs (c, d) -> w *)
 Definition un_subst (c d : N) : option N :=
   match assoc_get gen_mdurl_unesc_subst c with
@@ -137,19 +127,19 @@ Fixpoint un_loop (fuel : nat) (s : bytes) (i last : N) (out : bytes) : lres byte
   | O => LFuel
   | S fuel =>
     if i <? nlen s then
-      match lget s i with
+      match get s i with
       | None => LFault
       | Some c =>
         let flush :=
           if last =? i then Some out
-          else match lslice s last i with Some t => Some (out ++ t) | None => None end in
+          else match slice s last i with Some t => Some (out ++ t) | None => None end in
         if i + 1 <? nlen s then
-          match lget s (i + 1) with
+          match get s (i + 1) with
           | None => LFault
           | Some d =>
-            if mem (lassoc_list gen_mdurl_unesc_escape c) d then
+            if mem (assoc_list gen_mdurl_unesc_escape c) d then
               (* write s[last:i], write s[i+1:i+2], i++, last = i+1, continue *)
-              match flush, lslice s (i + 1) (i + 2) with
+              match flush, slice s (i + 1) (i + 2) with
               | Some o, Some t => un_loop fuel s (i + 2) (i + 2) (o ++ t)
               | _, _ => LFault
               end
@@ -167,7 +157,7 @@ Fixpoint un_loop (fuel : nat) (s : bytes) (i last : N) (out : bytes) : lres byte
       end
     else
       if last =? nlen s then LOk out
-      else match lslice s last (nlen s) with Some t => LOk (out ++ t) | None => LFault end
+      else match slice s last (nlen s) with Some t => LOk (out ++ t) | None => LFault end
   end.
 
 Definition markdownUnescape (s : bytes) : lres bytes := un_loop (S (length s)) s 0 0 [].
